@@ -85,6 +85,10 @@ func (p *clientStreamProcessorFMP4) run(ctx context.Context) error {
 	tracks := make([]*Track, len(p.init.Tracks))
 
 	for i, track := range p.init.Tracks {
+		if track.TimeScale == 0 {
+			return fmt.Errorf("invalid time scale")
+		}
+
 		tracks[i] = &Track{
 			Codec:     codecs.FromFMP4(track.Codec),
 			ClockRate: int(track.TimeScale),
@@ -221,6 +225,9 @@ func (p *clientStreamProcessorFMP4) initializeTrackProcessors(
 ) error {
 	if p.isLeading {
 		timeScale := findTimeScaleOfLeadingTrack(p.init.Tracks, p.leadingTrackID)
+		if timeScale == 0 {
+			return fmt.Errorf("invalid time scale")
+		}
 
 		timeConv := &clientTimeConvFMP4{
 			leadingTimeScale: int64(timeScale),
